@@ -75,7 +75,7 @@ pub fn list(ctx: &mut Ctx) {
             if rows.is_empty() { return ".".into(); }
             rows.iter().map(|(s, e)| {
                 let target = if e.kind >= 2 { e.content.clone().unwrap_or_default() } else { vec![] };
-                let csize: usize = e.data.rsplit('.').next().and_then(|d| d.split('/').next()).and_then(|l| l.parse().ok()).unwrap_or(0);
+                let csize: usize = e.stored_len;
                 format!("{},{},{},{},{},{}", *s as u8, hexw(e.name.as_bytes()), e.kind, hexw(&target), e.raw_size.map(|x| x.to_string()).unwrap_or("-".into()), csize)
             }).collect::<Vec<_>>().join(";")
         };
